@@ -267,7 +267,7 @@ def run_child(env: tuple[Any, ...], params: dict[str, Any], seeds: list[int], fu
 def _bounds(tier: str) -> tuple[list[tuple[Any, ...]], int, int, int, int | None]:
     if tier == "quick":
         return ENVS_QUICK, 24, 3, 8, 3
-    return ENVS_THOROUGH, 512, 32, 32, None
+    return ENVS_THOROUGH, 256, 16, 16, None
 
 
 def items(tier: str, seed: int) -> list[tuple[Any, ...]]:
@@ -353,7 +353,8 @@ def finish(merged: Any, tier: str) -> dict[str, Any]:
     by_env = {e[0]: e for e in envs}
     params_by_name = dict(PARAM_SETS)
     compared = 0
-    located: dict[tuple[str, str, str], int] = {}
+    # which environments differ, per (parameter set, seed)
+    differing: dict[tuple[str, str], list[str]] = {}
     for key in sorted(tr):
         pname, seed_s, label = key.split("|")
         if label == "ref":
@@ -362,25 +363,29 @@ def finish(merged: Any, tier: str) -> dict[str, Any]:
         if refd is None:
             raise Broken(f"no reference transcript for {pname} seed {seed_s}")
         compared += 1
-        d = tr[key]
-        if d == refd:
-            continue
-        env = by_env[label]
-        kind = "model-differs" if d["model"] != refd["model"] else "answers-differ"
-        lk = (pname, env[4], kind)
-        located[lk] = located.get(lk, 0) + 1
-        if located[lk] <= 2:
-            what, text = _first_difference(pname, params_by_name[pname], int(seed_s), by_env["ref"], env, max_sessions)
+        if tr[key] != refd:
+            differing.setdefault((pname, seed_s), []).append(label)
+    located: dict[tuple[str, str], tuple[str, str]] = {}
+    for (pname, seed_s), labels in sorted(differing.items(), key=lambda kv: (kv[0][0], int(kv[0][1]))):
+        refd = tr[f"{pname}|{seed_s}|ref"]
+        axes = {by_env[lb][4] for lb in labels}
+        if {"hashseed", "import-order", "clock"} <= axes:
+            axis = "any-two-processes"
         else:
-            what, text = "unlocated", "(further case of an already located signature class)"
-        sig = f"C16|{kind}|axis={env[4]}|params={pname}" + (f"|first-diff={what}" if kind == "answers-differ" and what != "unlocated" else "")
-        if what == "unlocated":
-            # attach to the first located signature of the same class
-            sig = next((v.sig for v in merged.violations if v.sig.startswith(f"C16|{kind}|axis={env[4]}|params={pname}")), sig)
+            axis = "+".join(sorted(axes - {"combined"})) or "combined"
+        # the environment that isolates the axis, if there is one
+        label = next((lb for lb in labels if by_env[lb][4] != "combined"), labels[0])
+        env = by_env[label]
+        kind = "model-differs" if tr[f"{pname}|{seed_s}|{label}"]["model"] != refd["model"] else "answers-differ"
+        lk = (kind, axis)
+        if lk not in located:
+            located[lk] = _first_difference(pname, params_by_name[pname], int(seed_s), by_env["ref"], env, max_sessions)
+        what, text = located[lk]
+        sig = f"C16|{kind}|axis={axis}" + (f"|first-diff={what}" if kind == "answers-differ" else "")
         merged.violate(
             sig,
-            f"params {pname} seed {seed_s}: environment {label} (PYTHONHASHSEED={env[1]}, import order {env[2]}, clock {env[3]}) differs from the reference environment: {text}",
-            {"kind": "diff", "pname": pname, "params": params_by_name[pname], "seed": int(seed_s), "env": list(env), "max_sessions": max_sessions},
+            f"params {pname} seed {seed_s}: environments {labels} differ from the reference environment; e.g. {label} (PYTHONHASHSEED={env[1]}, import order {env[2]}, clock {env[3]}): {text}",
+            {"kind": "diff", "pname": pname, "params": params_by_name[pname], "seed": int(seed_s), "env": list(env), "axis": axis, "max_sessions": max_sessions},
         )
     want = sum((n_default if p == "default" else n_other) for p, _ in PARAM_SETS) * (len(envs) - 1)
     if compared != want:
@@ -414,7 +419,7 @@ def replay(doc: dict[str, Any]) -> Any:
     print("    ", text)
     if what != "none":
         kind = "model-differs" if what == "model" else "answers-differ"
-        res.violate(f"C16|{kind}|axis={env[4]}|params={pname}" + (f"|first-diff={what}" if kind == "answers-differ" else ""), text, doc)
+        res.violate(f"C16|{kind}|axis={doc.get('axis', env[4])}" + (f"|first-diff={what}" if kind == "answers-differ" else ""), text, doc)
     return res
 
 
